@@ -13,7 +13,7 @@ print(f"""You are working on a scratch git worktree of the eclipse-iceoryx/iceor
 inter-process pub/sub and event middleware over POSIX shared memory) at {base}/repo.
 The sandbox has NO network: always pass `--offline` to cargo (and set CARGO_NET_OFFLINE=true). Always set
 CARGO_TARGET_DIR={base}/target and pass `-j 4` to cargo (the machine is shared). Work ONLY inside {base}/ .
-Never read or touch /repo or /verif (they are off limits for this task).
+Never read or touch /repo or /verif (they are off limits for this task). Never use `git stash` (the stash is shared with other worktrees of this repository); to switch between "with change" and "without change" use `git diff > file`, `git apply -R file`, `git apply file`. The machine is loaded: tests with 10 s watchdogs may abort on the unchanged tree too; re-run such tests alone (`-- --test-threads 1 <filter>`) before drawing conclusions.
 
 ## The property
 
